@@ -599,6 +599,21 @@ class Executor(EvalMixin, StmtMixin):
                 self.spec_env = saved_env
         if not self.spec:
             return _MISSING
+        if fname == 'entry':
+            le = getattr(self.root, 'loop_entry', None)
+            if le is None:
+                raise ContractError('entry() outside a loop invariant')
+            cur, saved_env = self.path.store, self.spec_env
+            self.path.store = dict(le[0])
+            self.spec_env = dict(saved_env)
+            for k, v in le[1].items():
+                # locals as they were at loop entry, except quantifier-bound names
+                if k not in saved_env:
+                    self.spec_env[k] = v
+            try:
+                return self.ev(node.args[0])
+            finally:
+                self.path.store, self.spec_env = cur, saved_env
         if fname == 'implies':
             a = self.truthy(self.ev(node.args[0]))
             b = self.truthy(self.ev(node.args[1]))
